@@ -459,6 +459,96 @@ func runC04(c *Ctx) {
 		}
 		rep.Eval(fmt.Sprintf("single-call/%dMiB+%d", sz>>20, sz&(1<<20-1)))
 	})
+	// (e3) a copy loop with one reused buffer of 100000 bytes (larger than any internal threshold one might pick, not a
+	// multiple of the block size): every chunk is overwritten before the next Write; and a large Write from a slice with
+	// spare capacity, after which the caller's bytes behind the slice must be untouched
+	{
+		r := c.Rng("copyloop")
+		for _, bufSize := range []int{100000, 65536 + 1, 70000, 1<<17 + 9} {
+			total := 3*bufSize + 12345
+			h, rh := sm3.New(), ref.NewSM3Stream()
+			buf := make([]byte, bufSize)
+			for off := 0; off < total; {
+				n := bufSize
+				if off+n > total {
+					n = total - off
+				}
+				r.Fill(buf[:n])
+				h.Write(buf[:n])
+				rh.Write(buf[:n])
+				off += n
+			}
+			if g, w := h.Sum(nil), rh.Sum(nil); !bytes.Equal(g, w) {
+				rep.Violation("C04/Hash.Write/copy-loop-with-reused-large-buffer-mismatch", fmt.Sprintf("buffer of %d bytes refilled between Writes, %d bytes in all: got %x want %x", bufSize, total, g, w), map[string]interface{}{"buffer": bufSize, "total": total})
+			}
+			backing := r.Bytes(bufSize + 4096)
+			before := append([]byte{}, backing...)
+			h2, rh2 := sm3.New(), ref.NewSM3Stream()
+			h2.Write(backing[:bufSize])
+			rh2.Write(before[:bufSize])
+			h2.Write([]byte("tail"))
+			rh2.Write([]byte("tail"))
+			g, w := h2.Sum(nil), rh2.Sum(nil)
+			if !bytes.Equal(backing, before) {
+				rep.Violation("C04/Hash.Write/writes-caller-memory-behind-a-large-slice", fmt.Sprintf("Write(b[:%d]) of a %d-byte array, then a small Write and Sum: the caller's array changed", bufSize, len(backing)), map[string]interface{}{"buffer": bufSize})
+			} else if !bytes.Equal(g, w) {
+				rep.Violation("C04/Hash.Write/large-write-from-slice-with-spare-capacity-mismatch", fmt.Sprintf("%d bytes", bufSize), map[string]interface{}{"buffer": bufSize})
+			}
+			rep.Eval(fmt.Sprintf("copy-loop/buffer=%d", bufSize))
+		}
+	}
+	// (e4) one long-lived hasher (and one long-lived HMAC object) asked for a digest several hundred times, every result
+	// kept by the caller (a list of leaf hashes, a batch of tags): all of them are checked at the end, not when returned
+	{
+		r := c.Rng("many-sums")
+		n := c.Q(400, 5000)
+		h := sm3.New()
+		key := r.Bytes(20)
+		hm := hmac.New(sm3.New, key)
+		var got, want, gotM, wantM [][]byte
+		for i := 0; i < n; i++ {
+			msg := r.Bytes(i % 150)
+			if i%3 != 0 {
+				h.Reset()
+				h.Write(msg)
+				want = append(want, ref.SM3(msg))
+			} else {
+				// no Reset: the digest of everything written since the last Reset
+				h.Reset()
+				h.Write(msg[:len(msg)/2])
+				h.Sum(nil)
+				h.Write(msg[len(msg)/2:])
+				want = append(want, ref.SM3(msg))
+			}
+			got = append(got, h.Sum(nil))
+			hm.Reset()
+			hm.Write(msg)
+			gotM = append(gotM, hm.Sum(nil))
+			rm := hmac.New(func() hash.Hash { return ref.NewSM3Stream() }, key)
+			rm.Write(msg)
+			wantM = append(wantM, rm.Sum(nil))
+		}
+		bad, badM := 0, 0
+		first := -1
+		for i := range got {
+			if !bytes.Equal(got[i], want[i]) {
+				bad++
+				if first < 0 {
+					first = i
+				}
+			}
+			if !bytes.Equal(gotM[i], wantM[i]) {
+				badM++
+			}
+		}
+		if bad > 0 {
+			rep.Violation("C04/Hash.Sum/kept-results-changed-by-later-calls", fmt.Sprintf("%d of %d digests returned by one hasher no longer hold the value they were returned with (first: result %d)", bad, n, first), map[string]interface{}{"results_kept": n})
+		}
+		if badM > 0 {
+			rep.Violation("C04/HMAC/kept-tags-changed-by-later-calls", fmt.Sprintf("%d of %d tags of one HMAC-SM3 object", badM, n), map[string]interface{}{"results_kept": n})
+		}
+		rep.Eval("many-sums-kept")
+	}
 	rep.Note("bit-length trailer bytes above length>>32 (inputs >= 128 GiB) are out of reach")
 }
 
